@@ -44,6 +44,10 @@ def run(prog, chk):
     from props import strops
     strops.check_evaluation_sites(prog, chk)  # what is written raw (comments) is not the product of an evaluation
     attribute_lists_validated(prog, chk)
+    from props import C04, C07
+    C04.filter_closed(prog, chk)  # an attribute copied to the output *and* added again (data-src-line, class) is a duplicate attribute
+    if "cli" in prog.features:
+        C07.output_file(prog, chk)  # the output file holds the result and nothing else (no tail of an earlier, longer file after the root's end tag)
     from props import C01
     C01.utf8_boundary(prog, chk)  # output is UTF-8 because every input event was validated (pass-through carries bytes along)
 
